@@ -27,6 +27,14 @@ CLAIMED = {
         "Trusted: einxverif/loopsem.py run_update (reference), numpy. numpy-family backends only; integer data so that accumulation is exact.",
         "DESIGN.md §4 C14",
     ),
+    "C08": (
+        "metamorphic property-based testing (renaming / permutation / regrouping / inversion / composition twins of generated calls, Hypothesis)",
+        "Generated-input search over metamorphic relation instances: each generated call is re-run as a twin related by a renaming, an input or output "
+        "permutation with transposed data, a parenthesised regrouping with reshaped data, or (for pure rearrangements) the inverse / a composition; results must be "
+        "bit-identical for integer data. Exploration only.",
+        "Trusted: numpy transpose/reshape used to build twins; einx is compared with itself, so a defect that is itself equivariant is left to C01.",
+        "DESIGN.md §4 C08",
+    ),
 }
 NOT_YET = "check not built yet in this round (see DESIGN.md §8 build order); the property has an executable oracle and will be claimed once its check is registered"
 
